@@ -202,6 +202,27 @@ impl<'a> Sim<'a> {
         }
         let i = rng.below(n as u64) as usize;
         let h = self.handles[i];
+        if rng.chance(1, 12) {
+            // F14: reset_address() at an arbitrary moment — also while the request to the old address is in
+            // flight (user calls happen between polls, i.e. also between a request and its reply)
+            let old = self.cfg.ps[i].addr;
+            let new = match rng.below(5) {
+                0 => old,
+                1 if n > 1 => rng.pick(&self.cfg.ps).addr,
+                _ => 3 + rng.below(60) as u8,
+            };
+            if new == self.cfg.own || Some(new) == self.peer {
+                return;
+            }
+            self.app.inner.get_mut(h).reset_address(new);
+            self.handles = self.app.inner.iter().map(|(h, _)| h).collect();
+            self.ops.push(format!("dp.resetaddr {i} {new}"));
+            self.cfg.ps[i].addr = new;
+            if rng.bool() {
+                self.slaves[i].addr = new;
+            }
+            return;
+        }
         if rng.chance(2, 5) {
             self.app.inner.get_mut(h).request_diagnostics();
             self.ops.push(format!("dp.diagreq {i}"));
@@ -293,6 +314,14 @@ impl<'a> Sim<'a> {
                             reply = Some(t);
                         }
                     }
+                }
+                // the addressed station answers with a REQUEST-coded telegram (a confused / second master at
+                // that address): the FDL layer must not hand it to the application (seed C05-m2)
+                if rng.below(1000) < plan.foreign_dst {
+                    let fcb = *rng.pick(&["F", "H", "L", "I"]);
+                    let rq = *rng.pick(&[12u8, 13, 3, 9]);
+                    let n = if rng.bool() { ilen } else { 0 };
+                    reply = Some(format!("data {ts} {da} - - q.{fcb}.{rq} {}", hex(&rng.bytes(n))));
                 }
                 if rng.below(1000) < plan.foreign_dst {
                     let wrong = *rng.pick(&[127u8, 126, ts.wrapping_add(1) & 0x7f, 0]);
